@@ -45,6 +45,9 @@ func ValueOf(value any) Value { //nolint: gocyclo
 	// interfaces
 	switch v := value.(type) {
 	case drop:
+		if isNilPointer(v) {
+			return nilValue
+		}
 		return &dropWrapper{d: v}
 	case yaml.MapSlice:
 		return mapSliceValue{slice: v}
@@ -241,12 +244,12 @@ func (sv stringValue) Contains(substr Value) bool {
 	if !ok {
 		s = fmt.Sprint(substr.Interface())
 	}
-	return strings.Contains(sv.value.(string), s)
+	return strings.Contains(reflect.ValueOf(sv.value).String(), s)
 }
 
 func (sv stringValue) PropertyValue(iv Value) Value {
 	if iv.Interface() == sizeKey {
-		return ValueOf(len(sv.value.(string)))
+		return ValueOf(reflect.ValueOf(sv.value).Len())
 	}
 	return nilValue
 }
